@@ -280,6 +280,7 @@ impl<'a> RefArchive<'a> {
             ));
         }
         let mut out = Vec::with_capacity(fsize);
+        let mut sums: Vec<u32> = vec![];
         for i in 0..nsec {
             let (a, b) = (offs[i], offs[i + 1]);
             if b < a || b > stored.len() {
@@ -289,6 +290,7 @@ impl<'a> RefArchive<'a> {
             if enc {
                 rc::decrypt_bytes(&mut sec, key.wrapping_add(i as u32));
             }
+            sums.push(adler32(&sec));
             let want = ss.min(fsize - out.len());
             if sec.len() < want {
                 if sec.is_empty() {
@@ -307,8 +309,48 @@ impl<'a> RefArchive<'a> {
                 offs[nsec], be.csize
             ));
         }
+        if be.flags & F_CRC != 0 {
+            // The checksum sector lies between the last two offsets, which end the stored file. It
+            // holds one ADLER32 per data sector, computed over the sector as stored before encryption;
+            // it is compressed like a data sector when that makes it smaller and is never encrypted;
+            // an entry of 0 or 0xFFFFFFFF means "no checksum".
+            let (a, b) = (offs[nsec], offs[nsec + 1]);
+            if b < a || b != be.csize as usize {
+                return Err(format!("checksum sector offsets {a}..{b} do not end at the stored size {}", be.csize));
+            }
+            let raw = &stored[a..b];
+            let table: Vec<u8> = if raw.len() == nsec * 4 {
+                raw.to_vec()
+            } else if raw.is_empty() {
+                vec![]
+            } else if raw.len() < nsec * 4 {
+                unpack(raw[0], &raw[1..], nsec * 4).map_err(|e| format!("checksum sector: {e}"))?
+            } else {
+                return Err(format!("checksum sector stores {} bytes for {nsec} sectors", raw.len()));
+            };
+            for (i, want) in table.chunks_exact(4).enumerate() {
+                let want = u32::from_le_bytes(want.try_into().unwrap());
+                if want != 0 && want != 0xFFFF_FFFF && want != sums[i] {
+                    return Err(format!("sector {i}: checksum entry {want:#010x}, ADLER32 of the stored sector {:#010x}", sums[i]));
+                }
+            }
+        }
         Ok(out)
     }
+}
+
+/// ADLER32 (RFC 1950), written out here so that the reference shares no code with the library
+pub fn adler32(data: &[u8]) -> u32 {
+    let (mut a, mut b) = (1u32, 0u32);
+    for chunk in data.chunks(5552) {
+        for &x in chunk {
+            a += x as u32;
+            b += a;
+        }
+        a %= 65521;
+        b %= 65521;
+    }
+    (b << 16) | a
 }
 
 // -----------------------------------------------------------------------------------------
@@ -327,6 +369,9 @@ pub struct RefFile {
     pub fix_key: bool,
     /// bytes of slack before this file's data
     pub gap: u16,
+    /// sectored + compressed files only: write a checksum sector (SECTOR_CRC flag)
+    #[serde(default)]
+    pub crc: bool,
 }
 
 #[derive(Clone, Debug, PartialEq, Eq, serde::Serialize, serde::Deserialize)]
@@ -462,17 +507,28 @@ impl RefSpec {
                 stored = d;
             } else {
                 flags |= F_COMPRESS;
+                if f.crc {
+                    flags |= F_CRC;
+                }
                 let nsec = data.len().div_ceil(ss);
-                let tsize = (nsec + 1) * 4;
+                let tsize = (nsec + 1 + f.crc as usize) * 4;
                 let mut offs = vec![tsize as u32];
                 let mut body = vec![];
+                let mut sums: Vec<u8> = vec![];
                 for (i, ch) in data.chunks(ss).enumerate() {
                     let p = pack(f.method, ch);
                     let mut sec = if p.len() < ch.len() { p } else { ch.to_vec() };
+                    sums.extend(adler32(&sec).to_le_bytes());
                     if f.encrypted {
                         rc::encrypt_bytes(&mut sec, key.wrapping_add(i as u32));
                     }
                     body.extend_from_slice(&sec);
+                    offs.push((tsize + body.len()) as u32);
+                }
+                if f.crc {
+                    // checksum sector: compressed when smaller, never encrypted
+                    let p = pack(0x02, &sums);
+                    body.extend_from_slice(if p.len() < sums.len() { &p } else { &sums });
                     offs.push((tsize + body.len()) as u32);
                 }
                 let mut tab: Vec<u8> = offs.iter().flat_map(|o| o.to_le_bytes()).collect();
